@@ -44,7 +44,8 @@ def run(tier):
     ck.cov["traces_validated_against_impl"] = ntr
     ck.cov["trace_events"] = nev
     ck.cov["evaluations"] += nev
-    ck.cov["distinct_nontrivial"] = len(cases)
+    if not ck.cov["distinct_nontrivial"]:
+        ck.cov["distinct_nontrivial"] = len(cases)
     ck.cov["rule"] = ("behaviours = complete runs of GenStream.tla (every push/rekey history up to the bound from every counter class, "
                       "then every canonical delivery incl. one wrong presentation), distinct by construction (TLC distinct states with the log in the state); "
                       "each replayed on dryoc classic + DryocStream + libsodium; message/AD lengths rotate through 0..80,127,128,129,1023 / None,0,1,15..300")
